@@ -3,11 +3,12 @@
    (positive, N, Z -> zarith Big_int_Z and its arithmetic constants: the models handle 256-bit integers and a
    modular exponentiation); nothing else.  nat stays Coq's unary type (lengths, fuel, curve numbers). *)
 From Coq Require Import Extraction ExtrOcamlBasic ExtrOcamlZBigInt List NArith.
-From GmsmVerif Require Import Lib.Outcome Ser.SerBytes Ser.SerModel.
+From GmsmVerif Require Import Lib.Outcome Ser.SerBytes Ser.SerDER Ser.SerModel.
 Extraction Language OCaml.
 Extraction "ser_model.ml"
   WritePrivateKeyToHex ReadPrivateKeyFromHex WritePublicKeyToHex ReadPublicKeyFromHex
   Compress Decompress_sm2 SignDigitToSignData SignDataToSignDigit CipherMarshal CipherUnmarshal
   MarshalSm2UnecryptedPrivateKey ParsePKCS8UnecryptedPrivateKey ParseSm2PrivateKey
   MarshalSm2PublicKey ParseSm2PublicKey
-  X509KeyPair GMX509KeyPairs GMX509KeyPairsSingle matchKeyCert Bytes of_be to_be.
+  X509KeyPair GMX509KeyPairs GMX509KeyPairsSingle matchKeyCert
+  X509KeyPair_pem GMX509KeyPairsSingle_pem GMX509KeyPairs_pem Bytes of_be to_be.
